@@ -14,6 +14,21 @@ Theorem C06_regex_sources_pinned :
 Proof. exact (conj trzsz_regex_src_ok (conj uid_regex_src_ok tmux_regex_src_ok)). Qed.
 Print Assumptions C06_regex_sources_pinned.
 
+(* the numbers and strings the theorems below are parametric in are the documented ones *)
+Theorem C06_constants_pinned :
+  Consts.det_min_len = 24 /\ marker = bs "::TRZSZ:TRANSFER:" /\ Consts.det_finished_offset = 40 /\
+  Consts.det_finished_words = [bs "#CFG:"; bs "Saved"; bs "Cancelled"; bs "Stopped"; bs "Interrupted"] /\
+  Consts.det_prune_limit = 100 /\ Consts.det_prune_keep = 50 /\
+  Consts.det_id_min_len = 6 /\ Consts.det_plain_id_len = 13 /\ Consts.det_plain_suffix = bs "00" /\
+  Consts.det_win_id = bs "1" /\ Consts.det_win_id_len = 13 /\ Consts.det_win_suffix = bs "10" /\
+  Consts.det_rewrite_min_len = 13 /\ Consts.det_rewrite_suffix = bs "00" /\
+  Consts.det_retag_back = 2 /\ Consts.det_retag_char = 50 /\
+  Consts.det_relay_offset = 20 /\ Consts.det_relay_suffix = bs "#R" /\
+  Consts.det_client_old = bs "TRZSZ" /\ Consts.det_client_new = bs "TRZSZGO" /\
+  Consts.det_version_bits = 32.
+Proof. exact detector_consts_pinned. Qed.
+Print Assumptions C06_constants_pinned.
+
 (* no trigger => the detector state is untouched and the bytes pass unchanged: in client
    mode and plain relay mode literally, in relay+tmux mode after the id re-tagging (what
    TestRelayDetector pins), for every buffer, flag combination and id table *)
